@@ -97,6 +97,7 @@ pub struct Session {
 impl Session {
     pub fn new(cap: usize, level: u32) -> Option<Session> {
         history_noise();
+        choose_drop_mode();
         let mut b = http::Request::get("/");
         if level > 0 {
             b = b.header("accept-encoding", HeaderValue::from_static("gzip"));
@@ -334,8 +335,7 @@ impl Session {
             Op::DropWriter => {
                 if let Some(w) = self.w.take() {
                     let mark = self.mark();
-                    let r = std::panic::catch_unwind(std::panic::AssertUnwindSafe(|| drop(w)));
-                    let obs = if r.is_err() {
+                    let obs = if drop_in_mode(w) {
                         self.panicked = true;
                         Obs::Panic
                     } else {
@@ -381,8 +381,13 @@ impl Session {
             Op::DropBody => {
                 if let Some(b) = self.body.take() {
                     let mark = self.mark();
-                    drop(b);
-                    self.record("X".into(), Obs::Unit, mark, vec![]);
+                    let obs = if drop_in_mode(b) {
+                        self.panicked = true;
+                        Obs::Panic
+                    } else {
+                        Obs::Unit
+                    };
+                    self.record("X".into(), obs, mark, vec![]);
                 }
             }
         }
